@@ -1465,7 +1465,7 @@ func (h *c13H) extEdits(id *int) {
 			for _, x := range expect {
 				found := false
 				for _, y := range argE {
-					if x.src == y.src { // Remove compares the pattern text only
+					if x.src == y.src && x.sub == y.sub { // a member is a sub-type plus a pattern text
 						found = true
 					}
 				}
